@@ -291,6 +291,13 @@ inline std::pair<std::string, std::string> classifyStderr(const std::string &tex
         if (c != std::string::npos) file = baseName(rest.substr(0, c));
       }
       key = "assert:" + file + ":" + expr;
+    } else if ((p = l.find("Assertion '")) != std::string::npos && l.find("failed") != std::string::npos) {
+      // libstdc++ _GLIBCXX_ASSERTIONS: file:line: func: Assertion 'expr' failed.
+      std::string expr = l.substr(p + 11);
+      size_t q = expr.find('\'');
+      if (q != std::string::npos) expr = expr.substr(0, q);
+      std::string file = l.substr(0, l.find(':'));
+      key = "glibcxx-assert:" + baseName(file) + ":" + expr;
     } else if (l.find("ThreadSanitizer: data race") != std::string::npos) {
       key = "tsan:data-race";
     } else if (l.find("terminate called") != std::string::npos) {
